@@ -1,4 +1,5 @@
 import GroupbyVerif.Props.C04
+import GroupbyVerif.Generated.Constants
 import GroupbyVerif.Props.C02
 
 /-!
@@ -202,5 +203,14 @@ example :
     let b0 : List Row := [(0, .num 3), (1, .nan), (0, .num 1)]
     let m := srcCombine .max .f 2 (srcRun .max .f 2 b0) bs
     ((m.1 0, m.2 0), (m.1 1, m.2 1)) = ((.num 3, 2), (.num 9, 1)) := by decide
+
+/-- `srcCombine` is a Lean fold written by hand after the ten-line Python loop of
+`combine_chunk_results_for_factorized_key` (plain Python, not translated).  These facts are re-extracted from that
+loop's AST on every run: it starts from the first block's partials, walks the remaining blocks in order, merges with
+`reduce_array_pair(combined, chunk, f, counts=combined_count, y_counts=count)` and then adds the counts, and returns
+both arrays - the shape `srcCombine` has.  An edit of the loop turns one of them false and fails this theorem. -/
+theorem source_combine_fold_shape :
+    Generated.Constants.combineStartsWithFirstBlock = true ∧ Generated.Constants.combineFoldsRemainingBlocksInOrder = true ∧
+    Generated.Constants.combineMergesWithBothCounts = true ∧ Generated.Constants.combineReturnsBoth = true := by decide
 
 end GV.C03
